@@ -135,7 +135,7 @@ NOEXEC_FORMS = ["...", "pass", "'text %d'", "_n: int", "%d", "NS", "(NS)", "NS.x
                 "yield_ = None", "lambda: %d", "NS.x: int = %d", "del NS.x", "global _g%d", "import os.path", "await_ = 0", "f'{NS}'"]
 
 
-def layout(module, plain=False, deco_rng=None):
+def layout(module, plain=False, deco_rng=None, ret_comps=False):
     """deco_rng: when given (C04 only; such files are not executed by CPython), defs and classes randomly get decorator
     lines above their header and defs are randomly async; the statement id stays the header line."""
     lines = list(HEADER)
@@ -181,7 +181,20 @@ def layout(module, plain=False, deco_rng=None):
         if c == 'pass':
             return ('pass', emit("pass", ind))
         if c == 'return':
-            k = emit(var("return R(%d)", "return R(%d)", "return", "return R(%d), 0") .replace("%d", str(len(lines) + 1)), ind)
+            # the returned expression in every form, comprehensions and generator expressions included (a return is a terminator
+            # whatever it returns); executed files use the forms that evaluate R(k) exactly once
+            kk = len(lines) + 1
+            # (a directly returned comprehension is counted by pyscn like a statement-level one, which the statement model does not
+            # express: those forms are used only where the dead-code report alone is decided - ret_comps, property C02)
+            exec_forms = ["return R(%d)", "return R(%d)", "return [R(%d)][0]", "return (R(%d))", "return R(%d) if T else 0", "return R(%d), 0"]
+            comp_forms = ["return [R(%d) for _z in (0,)]", "return {R(%d) for _z in (0,)}", "return {R(%d): 0 for _z in (0,)}", "return (R(%d) for _z in ())",
+                          "return [z for z in R(%d) if z]"]
+            if deco_rng is None:
+                form = exec_forms[((kk * 2654435761) >> 9) % len(exec_forms)]
+            else:
+                form = deco_rng.choice(exec_forms + ["return", "return sorted(z for z in R(%d))", "return await_(R(%d))", "return not R(%d)", "return R(%d) or None"]
+                                       + (comp_forms * 2 if ret_comps else []))
+            k = emit(form.replace("%d", str(kk)), ind)
             return ('return', k)
         if c == 'raise':
             k = emit(var("raise X(%d)", "raise X(%d)", "raise", "raise X(%d) from None").replace("%d", str(len(lines) + 1)), ind)
